@@ -276,9 +276,11 @@ def harnesses(tier):
         ]
     return [
         {'name': 'algebra-depth2-mid', 'fn': h_algebra, 'cfg': {'depth': 2, 'leaves': ['W', 'D', 'Fse', 'N2'], 'ops': OPS, 'days': [1, 2, 3]}},
-        {'name': 'algebra-depth2-all', 'fn': h_algebra, 'cfg': {'depth': 2, 'leaves': ALL_LEAVES, 'ops': OPS, 'days': [0, 1, 3, 4]}},
-        {'name': 'algebra-depth3', 'fn': h_algebra, 'cfg': {'depth': 3, 'leaves': ['W', 'D', 'N2'], 'ops': ['+', '-', '*', '|'], 'days': [2]}},
+        {'name': 'algebra-depth2-wide', 'fn': h_algebra, 'cfg': {'depth': 2, 'leaves': ['W', 'Wse', 'D', 'Fse', 'N2', 'N0'], 'ops': OPS, 'days': [1, 3]}},
+        {'name': 'algebra-depth3', 'fn': h_algebra, 'cfg': {'depth': 3, 'leaves': ['W', 'N2'], 'ops': ['+', '|'], 'days': [2]}},
+        {'name': 'algebra-depth3-sub', 'fn': h_algebra, 'cfg': {'depth': 3, 'leaves': ['D', 'N1'], 'ops': ['-', '*'], 'days': [1, 2]}},
+        {'name': 'algebra-depth1-all', 'fn': h_algebra, 'cfg': {'depth': 1, 'leaves': ALL_LEAVES, 'ops': OPS, 'days': [0, 1, 2, 3, 4]}},
         {'name': 'validation', 'fn': h_validation, 'cfg': {}},
-        {'name': 'search-depth2', 'fn': h_search, 'cfg': {'depth': 2, 'leaves': ['W', 'Wse', 'D', 'Fse', 'N0', 'N1'], 'ops': ['+', '-', '|', '*'],
-                                                         'days': [0, 2, 4], 'horizon': 10}},
+        {'name': 'search-depth2', 'fn': h_search, 'cfg': {'depth': 2, 'leaves': ['W', 'Wse', 'D', 'Fse', 'N0', 'N1'], 'ops': ['+', '-', '|'],
+                                                         'days': [0, 4], 'horizon': 10}},
     ]
